@@ -41,6 +41,17 @@ impl Config {
         Ok(())
     }
 
+    /// Forget that the index is current. Must be done before the index is
+    /// modified, so that an interrupted rebuild is not mistaken for a complete
+    /// one the next time around.
+    pub fn invalidate_meta(&self) -> Result<()> {
+        match fs::remove_file(&self.meta_path) {
+            Ok(()) => Ok(()),
+            Err(e) if e.kind() == std::io::ErrorKind::NotFound => Ok(()),
+            Err(e) => Err(e.into()),
+        }
+    }
+
     /// Iterate over available asset names.
     pub fn assets(&self) -> impl Iterator<Item = Cow<'static, str>> {
         Asset::iter()
